@@ -460,3 +460,73 @@ Proof.
   intro F. unfold trusted. destruct (trusted_loop_ok ins dt pst0 F) as [st O]. rewrite O.
   eexists; reflexivity.
 Qed.
+
+(* ---- string truths (outside the property's domain) ---------------------------------- *)
+Lemma fixq_str s : fixq (VStr s) = Err TypeError.
+Proof. reflexivity. Qed.
+
+Lemma priority_loop_str pre : forall i post dt st s, Forall truth_ok pre -> truth i = VStr s ->
+  priority_loop (pre ++ i :: post) dt st = Err TypeError.
+Proof.
+  induction pre as [|p r IH]; intros i post dt st s F T.
+  - cbn [app priority_loop]. rewrite T, fixq_str. reflexivity.
+  - inversion F as [|x l Hp Fr]; subst. cbn [app priority_loop]. rewrite (ftr_ok p Hp). cbn [bind].
+    destruct st as [[b im] tm]. apply (IH i post dt _ s Fr T).
+Qed.
+
+Lemma trusted_loop_str pre : forall i post dt st s, Forall truth_ok pre -> truth i = VStr s ->
+  trusted_loop (pre ++ i :: post) dt st = Err TypeError.
+Proof.
+  induction pre as [|p r IH]; intros i post dt st s F T.
+  - cbn [app trusted_loop]. rewrite T, fixq_str. reflexivity.
+  - inversion F as [|x l Hp Fr]; subst. cbn [app trusted_loop]. rewrite (ftr_ok p Hp). cbn [bind].
+    destruct st as [[b im] tm]. apply (IH i post dt _ s Fr T).
+Qed.
+
+Lemma string_truth_raises pre i post dv dt s : Forall truth_ok pre -> truth i = VStr s ->
+  priority (pre ++ i :: post) dv dt = Err TypeError /\ trusted (pre ++ i :: post) dv dt = Err TypeError.
+Proof.
+  intros F T. unfold priority, trusted.
+  rewrite (priority_loop_str pre i post dt pst0 s F T), (trusted_loop_str pre i post dt pst0 s F T).
+  split; reflexivity.
+Qed.
+
+Lemma weighted_loop_str pre : forall i post st s, Forall truth_ok pre -> selected i = true ->
+  truth i = VStr s -> weighted_loop (pre ++ i :: post) st = Err TypeError.
+Proof.
+  induction pre as [|p r IH]; intros i post st s F S T.
+  - cbn [app weighted_loop]. unfold selected in S. rewrite S, T, fixq_str. reflexivity.
+  - inversion F as [|x l Hp Fr]; subst. cbn [app weighted_loop].
+    destruct (py_truthy (sel p)); [|apply (IH i post st s Fr S T)].
+    rewrite (ftr_ok p Hp). cbn [bind]. destruct (num_of (value p)); [|reflexivity].
+    destruct st as [[wi wc] wv]. apply (IH i post _ s Fr S T).
+Qed.
+
+Lemma weighted_string_truth pre i post dv dt s : Forall truth_ok pre -> selected i = true ->
+  truth i = VStr s -> weighted (pre ++ i :: post) dv dt = Ok (dflt dv dt).
+Proof.
+  intros F S T. unfold weighted. rewrite (weighted_loop_str pre i post _ s F S T). reflexivity.
+Qed.
+
+(* ---- inputs whose share has at least one field (every input with a numeric value) ----- *)
+Lemma priority_nonempty ins dv dt : Forall truth_ok ins -> (forall i, In i ins -> nonempty i = true) ->
+  (exists pre w post, ins = pre ++ w :: post /\ pqual dt w /\
+      (forall j, In j pre -> pqual dt j -> imp j < imp w) /\
+      (forall j, In j post -> pqual dt j -> imp j <= imp w) /\
+      priority ins dv dt = Ok (value w, VFlt (ftr w)))
+  \/ ((forall j, In j ins -> ~ pqual dt j) /\ priority ins dv dt = Ok (dflt dv dt)).
+Proof.
+  intros F N. destruct (priority_spec ins dv dt F) as [[pre [w [post [E [Q [P1 [P2 O]]]]]]]|H]; [left|right; exact H].
+  exists pre, w, post. rewrite (N w) in O; [auto|]. subst ins. apply in_or_app. right. left. reflexivity.
+Qed.
+
+Lemma trusted_nonempty ins dv dt : Forall truth_ok ins -> 0 <= dt -> (forall i, In i ins -> nonempty i = true) ->
+  (exists pre w post, ins = pre ++ w :: post /\ suff dt w = true /\
+      (forall j, In j pre -> suff dt j = true -> lexlt (ftr j) (imp j) (ftr w) (imp w)) /\
+      (forall j, In j post -> suff dt j = true -> ~ lexlt (ftr w) (imp w) (ftr j) (imp j)) /\
+      trusted ins dv dt = Ok (value w, VFlt (ftr w)))
+  \/ ((forall j, In j ins -> suff dt j = false) /\ trusted ins dv dt = Ok (dflt dv dt)).
+Proof.
+  intros F D N. destruct (trusted_spec ins dv dt F D) as [[pre [w [post [E [Q [P1 [P2 O]]]]]]]|H]; [left|right; exact H].
+  exists pre, w, post. rewrite (N w) in O; [auto|]. subst ins. apply in_or_app. right. left. reflexivity.
+Qed.
